@@ -65,6 +65,8 @@ NAMES = ["a", "b", "c", "lib", "app", "gen_x", "t-1", "x.y", "test", "build_all"
 FILES = ["a.txt", "b.txt", "c.md", "src/x.go", "src/y.go", "src/deep/z.go", ".hidden", "README"]
 GLOBS = ["*.txt", "**/*.go", "src/*.go", "*", "**/*", "nomatch*", "src/**", "[ab].txt", "{a,c}.*", "?.txt"]
 BAD_GLOBS = ["[", "a[", "{a,b", "[]a]"]
+# names `validateName` rejects: a loaded label must be printable and parsable again
+BAD_NAMES = ["a b", "x:y", "a/b", "...", "", "q?", "star*", "semi;colon", "'q'", "a\\b", "tab\tname", " a", "a ", "a\nb", "@a", "a,b", "//a", ":a"]
 PKGS = ["", "p", "p/q", "lib", "x-y", "p2", "pq", "lib/x"]
 
 
@@ -166,6 +168,13 @@ def gen_package(rng, mk=False, faults=True, max_targets=4, pool=None):
         for _ in range(rng.choice([0, 0, 0, 1, 2])):
             an = rng.choice(names[n:] + (tnames[:1] if faults and rng.random() < 0.08 else []) or ["al"])
             dto["aliases"].append({"name": an, "actual": gen_label(rng, names, 0.03 if faults else 0)})
+    if faults and dto["targets"] and rng.random() < 0.08:
+        # a name that cannot be written as a label (the command, i.e. the make goal, stays as it is)
+        bad = rng.choice([b for b in BAD_NAMES if not (mk and b == "")])
+        if dto["aliases"] and rng.random() < 0.4:
+            rng.choice([a for a in dto["aliases"]])["name"] = bad
+        else:
+            rng.choice(dto["targets"])["name"] = bad
     if faults and not mk and rng.random() < 0.05:
         # a null list entry (JSON null / YAML ~): expressible in JSON and YAML only
         if dto["targets"] and rng.random() < 0.6:
